@@ -84,6 +84,9 @@ type Exec struct {
 	pathNotes []string
 	errType   types.Type
 	pathCovers []string
+	lastInstr  string
+	curInstr   ssa.Instruction
+	curFn      *ssa.Function
 	lastPanic  *goPanic
 }
 
@@ -425,6 +428,9 @@ func (ex *Exec) callFunction(fn *ssa.Function, args []Value, env []Value) (resul
 		if r := recover(); r != nil {
 			gp, ok := r.(*goPanic)
 			if !ok {
+				if _, isEnd := r.(pathEnd); !isEnd && ex.lastInstr == "" && ex.curInstr != nil {
+					ex.lastInstr = fmt.Sprintf("%s: %s", ex.site(ex.curFn, instrPos(ex.curInstr)), ex.curInstr.String())
+				}
 				panic(r)
 			}
 			// run deferred calls while panicking
@@ -509,6 +515,7 @@ func (ex *Exec) runBlock(fr *frame) bool {
 	}
 	for _, in := range b.Instrs[nphi:] {
 		ex.steps++
+		ex.curInstr, ex.curFn = in, fr.fn
 		if ex.steps > ex.eng.maxSteps {
 			panic(pathEnd{"inconclusive", fmt.Sprintf("step budget %d exhausted", ex.eng.maxSteps)})
 		}
@@ -586,7 +593,7 @@ func (ex *Exec) describePanicValue(v Value) string {
 			return trunc(t.SMT(), 200)
 		}
 		// error value: try Error()
-		if m := ex.prog.LookupMethod(x.t, nil, "Error"); m != nil {
+		if m := ex.lookupMethod(x.t, nil, "Error"); m != nil {
 			func() {
 				defer func() { recover() }()
 			}()
@@ -1401,7 +1408,10 @@ func (ex *Exec) invoke(fr *frame, c *ssa.CallCommon, fnv Value, args []Value, po
 		if recv.t == nil {
 			ex.raise(fr, pos, "nil pointer dereference (method "+c.Method.Name()+" on nil interface)")
 		}
-		m := ex.prog.LookupMethod(recv.t, c.Method.Pkg(), c.Method.Name())
+		if nv, ok := recv.v.(NativeV); ok {
+			return ex.invokeNative(fr, nv, c.Method.Name(), args[1:], pos)
+		}
+		m := ex.lookupMethod(recv.t, c.Method.Pkg(), c.Method.Name())
 		if m == nil {
 			ex.unsupported("method " + c.Method.Name() + " not found on " + recv.t.String())
 		}
@@ -1747,4 +1757,19 @@ func sortedKeys(m map[string]int) []string {
 	}
 	sort.Strings(ks)
 	return ks
+}
+
+// lookupMethod returns the method named name of type t (nil if t has no such method).
+func (ex *Exec) lookupMethod(t types.Type, pkg *types.Package, name string) *ssa.Function {
+	ex.eng.buildMu.Lock()
+	defer ex.eng.buildMu.Unlock()
+	sel := ex.prog.MethodSets.MethodSet(t).Lookup(pkg, name)
+	if sel == nil && pkg == nil {
+		// unexported lookups need the package; exported ones do not
+		return nil
+	}
+	if sel == nil {
+		return nil
+	}
+	return ex.prog.MethodValue(sel)
 }
